@@ -742,6 +742,10 @@ class R:
             factor, monic = R(1), rest
         else:
             factor, monic = R(lead).sqrt(), R({m: c / lead for m, c in rest.p.items()})
+            if len(monic.p) > 1:
+                q = _poly_sqrt(monic.p)
+                if q is not None:
+                    return out * factor * abs(R(q))
         key = ("sqrt", _key(monic))
         g = ctx.memo.get(key)
         if g is None:
